@@ -32,6 +32,17 @@ def load_findings():
     return out
 
 
+def tree_identity(repo):
+    """Which source the obligations were generated from: the commit of the checked tree and whether the library files differ from it."""
+    def git(*a):
+        try:
+            return subprocess.run(["git", "-C", repo, *a], capture_output=True, text=True, timeout=30).stdout.strip()
+        except Exception:
+            return ""
+    return dict(path=os.path.realpath(repo), commit=git("rev-parse", "--short", "HEAD"),
+                modified_files=[ln[3:] for ln in git("status", "--porcelain", "--", "numpoly").splitlines()])
+
+
 def load_lock():
     if os.path.exists(LOCK):
         return json.load(open(LOCK))
@@ -256,6 +267,7 @@ def run_property(pid, tier="quick", seed=0, verbose=False):
         undecided=undecided,
         samples=[dict(obligation=d["oid"], kind=d["kind"], verdict=d["verdict"], backend=d["backend"],
                       seconds=d.get("z3_s", 0)) for d in results[:: max(1, len(results) // 12)]][:14],
+        checked_tree=tree_identity(REPO),
         explanation=spec.get("explanation", ""),
         not_decided=spec.get("not_decided", []),
         known_findings_matched=sorted(matched_known),
